@@ -10,6 +10,9 @@ R22a  the complete decision table of InstanceState::update_state — (instance_s
 R22b  update_state is applied only to changes that are accepted: no call to it lies on a path that
       afterwards returns NotAdded / Rejected.
 R22c  writer side: unregister emits NotAliveDisposedUnregistered iff autodispose_unregistered_instances.
+R22s  the change kind survives the wire: the status-info constant that CacheChange::as_data_submessage writes for each
+      ChangeKind arm (its byte value is read from the constant's own MIR body) is the value that the decoder's table in
+      CacheChange::try_from_data_submessage maps back to the same variant (encoder / decoder sibling tables).
 """
 from vplib import expr as E
 from vplib.facts import path_endswith, short_ty
@@ -174,8 +177,83 @@ def writer_unregister(fx, rep):
     adder(rep, d)("R22c", "dispose emits NotAliveDisposed", bool(df.aggregates("ChangeKind", "NotAliveDisposed")), "no NotAliveDisposed change")
 
 
+def _const_last_byte(fx, def_id):
+    """value of the last element of the byte array a `const X: StatusInfo = StatusInfo([..])` item is built from"""
+    cb = fx.bodies.get(def_id)
+    if cb is None:
+        return None
+    for bb, i, st in cb.mir.stmts():
+        if st.rv is not None and st.rv.kind == "aggregate" and st.rv.agg.get("k") == "array" and st.rv.ops:
+            c = st.rv.ops[-1].const
+            if c is not None and isinstance(c.get("v"), int) and all(o.const is not None and o.const.get("v") == 0 for o in st.rv.ops[:-1]):
+                return c["v"]
+    return None
+
+
+def status_info_tables(fx, rep):
+    enc = fx.fn("CacheChange", "as_data_submessage")
+    dec = fx.fn("CacheChange", "try_from_data_submessage")
+    em, dm = enc.mir, dec.mir
+    # decoder: switch on a byte of the received status info -> ChangeKind built in the arm
+    dtab = {}
+    for bb, blk in enumerate(dm.blocks):
+        t = blk.term
+        if t.kind != "switch" or t.discr is None or t.discr.place is None or len(t.arms) < 2:
+            continue
+        if not any(p[0] == "cindex" for p in t.discr.place.proj):
+            continue
+        for v, tgt in t.arms:
+            cur, seen = tgt, 0
+            while cur is not None and seen < 4:
+                hit = [st for st in dm.blocks[cur].stmts if st.rv is not None and st.rv.is_adt("ChangeKind")]
+                if hit:
+                    dtab[v] = (hit[0].rv.agg["vidx"], hit[0].rv.agg["variant"])
+                    break
+                nx = dm.succ(cur)
+                cur = nx[0] if len(nx) == 1 else None
+                seen += 1
+    # encoder: arm of a switch on the ChangeKind discriminant -> status-info constant used only in that arm
+    n = 0
+    add = adder(rep, enc)
+    for bb, blk in enumerate(em.blocks):
+        t = blk.term
+        if t.kind != "switch" or not any(st.rv is not None and st.rv.kind == "discr" and str(st.rv.ty or "").split("::")[-1] == "ChangeKind" for st in blk.stmts):
+            continue
+        targets = {}
+        for v, tgt in t.arms:
+            targets.setdefault(tgt, []).append(v)
+        for tgt, vals in targets.items():
+            others = set()
+            for o in targets:
+                if o != tgt:
+                    others |= em.reachable(o)
+            if t.otherwise is not None and t.otherwise != tgt:
+                others |= em.reachable(t.otherwise)
+            own = em.reachable(tgt) - others
+            for ob in sorted(own):
+                for st in em.blocks[ob].stmts:
+                    if st.rv is None:
+                        continue
+                    for o in st.rv.ops:
+                        c = o.const
+                        if c is None or not c.get("def") or short_ty(str(c.get("ty") or "")) != "StatusInfo":
+                            continue
+                        byte = _const_last_byte(fx, c["def"])
+                        for v in vals:
+                            n += 1
+                            back = dtab.get(byte)
+                            add("R22s", "status info written for ChangeKind variant #%d is decoded back to the same variant" % v,
+                                byte is not None and back is not None and back[0] == v,
+                                "the encoder writes %s (last byte %s) for variant #%d, the decoder maps that value to %s" % (c.get("def_name"), byte, v, back),
+                                st.line)
+    rep.floor("R22s-dec", len(dtab), 3, "status-info values the decoder maps to a ChangeKind")
+    return n
+
+
 def run(ctx, rep):
     fx = ctx.facts
+    ns = status_info_tables(fx, rep)
+    rep.floor("R22s", ns, 3, "status-info constants written per ChangeKind arm")
     n = table(fx, rep)
     rep.floor("R22a", n, 30, "decision-table rows of update_state")
     k = applied_once(fx, rep)
